@@ -20,6 +20,9 @@ CLAIMS = {
  "C17": dict(text="Coq theorems: framing round trip for all message lists (channel < 256, length < 65536), also over several rounds of whole frames; conditioner with (timestamp, sequence) keys returns exactly the inserted messages in insertion order for every batch pattern and is empty after every frame. Tied to the code by running tcp::send_message/read_message over a real loopback socket pair and the LinkConditioner through hooks.",
              note="Partial: OS TCP behaviour and std BinaryHeap's contract are trusted (exercised, not proved); short reads on a non-blocking socket are modelled as a distinct outcome excluded by the property's premise.",
              tech="Coq proof (list lemmas, priority-queue spec) + correspondence over real sockets", ref="DESIGN.md 6/C17"),
+ "C08": dict(text="Coq refinement theorems for both policies and every history of set_visibility / despawn / tick operations: the visibility query equals the most recent setting, the per-tick classification hidden/gained/visible equals (current, previous) of the specification, despawn records are produced exactly for entities the client holds that became hidden or were despawned (complete; the only extra records are named), operations on one entity never affect another. The ClientVisibility model is tied to the code through hooks on generated histories; an independent python (current, previous, pending) specification judges the implementation.",
+             note="Layer 0 (the state machine and its use by collect_despawns); that no message carries data of a hidden entity is the sim correspondence (message contents compared with the model and scanned against the visible set). Open finding D22: settings made between a marker removal and the next tick are forgotten.",
+             tech="Coq proof (invariant relating list/added/removed to (cur, prev)) + correspondence through cfg-gated hooks", ref="DESIGN.md 6/C08"),
 }
 ORDER = [p["id"] for p in props]
 checks = []
